@@ -56,6 +56,15 @@ Proof.
   destruct H as [? ? ? ? ? ? ?]; constructor; cbn; assumption.
 Qed.
 
+Lemma shape_set_tm s b pe : shape s -> shape (set_tm s b pe).
+Proof. intros [? ? ? ? ? ? ?]; constructor; cbn; assumption. Qed.
+
+Lemma shape_complete_exist s k : shape s -> shape (complete_exist s k).
+Proof. intros H. unfold complete_exist. destruct (inflight s); [|exact H]. apply shape_set_tm, shape_complete, H. Qed.
+
+Lemma shape_tm_start s : shape s -> shape (tm_start s).
+Proof. intros H. unfold tm_start. destruct (_ && _); [apply shape_set_tm|]; exact H. Qed.
+
 Lemma shape_flush P s force memsz wo : shape s -> shape (fst (flush P s force memsz wo)).
 Proof.
   intros H. unfold flush.
@@ -98,6 +107,10 @@ Proof.
   - exact H.
   - exact H.
   - cbn [fst]. apply shape_store_step; exact H.
+  - cbn [fst]. apply shape_complete_exist; exact H.
+  - cbn [fst]. apply shape_tm_start; exact H.
+  - cbn [fst]. apply shape_set_tm; exact H.
+  - exact H.
 Qed.
 
 Lemma shape_run_from P s ops : shape s -> shape (run_from P s ops).
@@ -142,6 +155,10 @@ Proof.
   - exact H.
   - cbn [fst]. unfold store_step. destruct (inflight s); [|exact H]. destruct (flushing s) as [[g fb]|]; [|exact H].
     destruct (nth_error fb (N.to_nat i)) as [[k v]|]; exact H.
+  - cbn [fst]. unfold complete_exist. destruct (inflight s) eqn:E; [|exact H]. cbn. apply (closed_complete s false H).
+  - cbn [fst]. unfold tm_start. destruct (_ && _); exact H.
+  - exact H.
+  - exact H.
 Qed.
 
 Lemma closed_run_from P s ops : closed s = true -> closed (run_from P s ops) = true.
